@@ -23,6 +23,9 @@ pub struct DiagSpec {
     pub edges: Vec<(u8, u8, bool)>,
     pub inputs: Vec<u8>,
     pub outputs: Vec<u8>,
+    /// number of dummy vertices created first and removed again: the diagram's vertex ids then start at `gap` and the
+    /// vector back end holds `gap` freed slots (a diagram after earlier removals); 0 = contiguous ids from 0
+    pub gap: u8,
 }
 
 pub type Ph = (i16, i16);
@@ -34,7 +37,7 @@ pub const PHI_TOL: [Ph; 3] = [(1, 3), (1, 8), (5, 7)];
 
 impl DiagSpec {
     pub fn empty() -> DiagSpec {
-        DiagSpec { verts: vec![], edges: vec![], inputs: vec![], outputs: vec![] }
+        DiagSpec { verts: vec![], edges: vec![], inputs: vec![], outputs: vec![], gap: 0 }
     }
     pub fn add(&mut self, kind: u8, ph: Ph) -> u8 {
         self.verts.push(VSpec { kind, num: ph.0, den: ph.1, vars: 0 });
@@ -42,6 +45,8 @@ impl DiagSpec {
     }
     pub fn build<G: GraphLike>(&self) -> G {
         let mut g = G::new();
+        let off = self.gap as usize;
+        let dummies: Vec<V> = (0..off).map(|_| g.add_vertex(VType::Z)).collect();
         for v in &self.verts {
             let ty = match v.kind {
                 0 => VType::B,
@@ -55,17 +60,20 @@ impl DiagSpec {
             }
         }
         for &(s, t, h) in &self.edges {
-            g.add_edge_with_type(s as usize, t as usize, if h { EType::H } else { EType::N });
+            g.add_edge_with_type(s as usize + off, t as usize + off, if h { EType::H } else { EType::N });
         }
-        g.set_inputs(self.inputs.iter().map(|&x| x as usize).collect());
-        g.set_outputs(self.outputs.iter().map(|&x| x as usize).collect());
+        g.set_inputs(self.inputs.iter().map(|&x| x as usize + off).collect());
+        g.set_outputs(self.outputs.iter().map(|&x| x as usize + off).collect());
+        for d in dummies {
+            g.remove_vertex(d);
+        }
         g
     }
     pub fn to_json(&self) -> Value {
         json!({
             "verts": self.verts.iter().map(|v| json!([v.kind, v.num, v.den, v.vars])).collect::<Vec<_>>(),
             "edges": self.edges.iter().map(|e| json!([e.0, e.1, e.2])).collect::<Vec<_>>(),
-            "inputs": self.inputs, "outputs": self.outputs,
+            "inputs": self.inputs, "outputs": self.outputs, "gap": self.gap,
             "legend": "verts: [kind 0=B 1=Z 2=X, phase numerator, phase denominator, variable bitmask]; edges: [s, t, hadamard]"
         })
     }
@@ -79,6 +87,7 @@ impl DiagSpec {
         }
         d.inputs = v["inputs"].as_array()?.iter().map(|x| x.as_u64().unwrap() as u8).collect();
         d.outputs = v["outputs"].as_array()?.iter().map(|x| x.as_u64().unwrap() as u8).collect();
+        d.gap = v["gap"].as_u64().unwrap_or(0) as u8;
         Some(d)
     }
     pub fn spiders(&self) -> Vec<usize> {
